@@ -47,7 +47,7 @@ ASSUMPTIONS = [
     "'at least one checkpoint when N >= interval' is demanded, every checkpoint found is resumed from",
 ]
 BUDGET = {"quick": {"examples": 45, "workers": 4, "shrink": False},
-          "thorough": {"examples": 200, "workers": 14}}
+          "thorough": {"examples": 700, "workers": 14}}
 
 
 @st.composite
@@ -100,11 +100,20 @@ def _probe(mspec, gen):
     return tp.spaces.Points(x, T._in_space(mspec["in"]))
 
 
+def _bitwise(a, b):
+    """equal values, NaN treated as equal to NaN (a diverged training still has to round-trip)"""
+    if not (torch.is_tensor(a) and torch.is_tensor(b)) or a.shape != b.shape or a.dtype != b.dtype:
+        return False
+    if torch.equal(a, b):
+        return True
+    return torch.equal(torch.isnan(a), torch.isnan(b)) and \
+        torch.equal(torch.nan_to_num(a, nan=0.0), torch.nan_to_num(b, nan=0.0))
+
+
 def _same_state(sd_a, sd_b):
     if list(sd_a.keys()) != list(sd_b.keys()):
         return False
-    return all(torch.is_tensor(sd_b[k]) and sd_a[k].shape == sd_b[k].shape and torch.equal(sd_a[k], sd_b[k])
-               for k in sd_a)
+    return all(_bitwise(sd_a[k], sd_b[k]) for k in sd_a)
 
 
 def _tol(ref):
@@ -221,7 +230,7 @@ def _run(spec, ctx, tmp):
         if not _same_state(sd_ref, sd):
             report("weight-file-mismatch", which,
                    f"w_{which}.pt does not hold the model's state {'before' if which == 'init' else 'after'} training")
-        elif out.shape != out_ref.shape or not torch.equal(out, out_ref):
+        elif not _bitwise(out, out_ref):
             report("weight-file-mismatch", which + "-outputs", "loaded model does not reproduce the outputs bitwise")
     checked = [b for b in range(1, N) if ws["interval"] > 0 and (b - 1) % ws["interval"] == 0]
     if ws["interval"] <= 0:
